@@ -80,7 +80,9 @@ def s_diagrams(draw):
     return {"fam": fam, "n_inf": n_inf, "opts": opts, "axes": draw(st.sampled_from(["current", "given_current", "given_not_current"])),
             "dtype": draw(st.sampled_from(["float64", "float64", "float32"])), "twice": draw(st.booleans()),
             # where the infinite bars are born: at births of finite points, at the largest finite death, or after every finite death
-            "inf_birth": draw(st.sampled_from(["existing", "existing", "at_max_death", "after_all_deaths", "before_all_births"]))}
+            "inf_birth": draw(st.sampled_from(["existing", "existing", "at_max_death", "after_all_deaths", "before_all_births"])),
+            # a diagram that consists of its infinite bars only (the H0 diagram [[0, inf]] of a connected point cloud)
+            "only_inf": draw(st.integers(0, 5)) == 0}
 
 
 def _inf_birth(case, d, i, all_dgms):
@@ -105,7 +107,7 @@ def check_diagrams(case, ctx):
         ctx.skip("malformed (shrinker)")
     user_arrays = []
     for d, ni in zip(fam["dgms"], case["n_inf"]):
-        rows = [list(p) for p in d] + [[_inf_birth(case, d, i, fam["dgms"]), INF] for i in range(ni)]
+        rows = ([] if (case.get("only_inf") and ni >= 1) else [list(p) for p in d]) + [[_inf_birth(case, d, i, fam["dgms"]), INF] for i in range(ni)]
         user_arrays.append(np.array(rows, dtype=dt))
     pristine = [a.copy() for a in user_arrays]
     ctx.label("dtype:" + str(np.dtype(dt)), "twice" if case.get("twice") else "once")
@@ -149,7 +151,7 @@ def _check_diagrams_once(case, ctx, user_arrays, pristine, pass_no):
             warnings.simplefilter("ignore")
             ctx.call(plot_diagrams, arg, **kw)
         if pass_no == 0:
-            ctx.label("axes:" + case["axes"], "inf" if has_inf else "finite", ("inf_birth:" + case.get("inf_birth", "existing")) if has_inf else None, "lifetime" if o["lifetime"] else "birth_death",
+            ctx.label("axes:" + case["axes"], "inf" if has_inf else "finite", "all_finite_values_coincide" if span == 0 else None, ("inf_birth:" + case.get("inf_birth", "existing")) if has_inf else None, "lifetime" if o["lifetime"] else "birth_death",
                       "xy_range" if o["xy_range"] else "auto_range", "plot_only" if o["plot_only"] else None)
             ctx.nontrivial(len(shown) >= 2 and min(len(d) for d in shown) >= 3)
         untouched(ctx, others)
@@ -163,6 +165,9 @@ def _check_diagrams_once(case, ctx, user_arrays, pristine, pass_no):
             ys = inf_lines[0].get_ydata()
             ctx.require(len(ys) == 2 and ys[0] == ys[1], "infinity_line_not_horizontal", lambda: "infinity line ydata %r" % (ys,))
             b_inf = float(ys[0])
+            xs_inf = inf_lines[0].get_xdata()
+            ctx.require(float(xs_inf[-1]) > float(xs_inf[0]), "infinity_line_has_no_length",
+                        lambda: "the infinity line runs from x=%r to x=%r (a single dot at height %r)" % (xs_inf[0], xs_inf[-1], b_inf))
             ctx.require(ylim[0] < b_inf < ylim[1], "infinity_line_outside_axes", lambda: "infinity line at %r, y-limits %r" % (b_inf, ylim))
         else:
             ctx.require(len(inf_lines) == 0, "spurious_infinity_line", "an infinity line although no point has infinite death")
